@@ -154,9 +154,11 @@ def gen_cli_case(rnd, i):
             path = name = None
             if nargs >= 1:
                 ext = rnd.choice([".wav", ".WAV", "", ".bin", ".raw", ".x.y", ".bk", ".tap", ".v2.wav"])
-                form = rnd.choice(["plain", "plain", "subdir", "dotdot", "abs", "dot"])
+                form = rnd.choice(["plain", "plain", "subdir", "dotdot", "abs", "dot", "abs-dot", "abs-slashes", "abs-dotdot"])
                 fn = rnd.choice(FILE_CHARS[:62]) + rnd_word(rnd, FILE_CHARS, 0, 9) + ext
-                path = {"plain": fn, "subdir": "out/" + fn, "dotdot": "../" + fn if srcdir else "out/../" + fn, "abs": "@ABS@/" + fn, "dot": "./" + fn}[form]
+                path = {"plain": fn, "subdir": "out/" + fn, "dotdot": "../" + fn if srcdir else "out/../" + fn, "abs": "@ABS@/" + fn, "dot": "./" + fn,
+                        # absolute, but not in canonical spelling: still the file it names
+                        "abs-dot": "@ABS@/./" + fn, "abs-slashes": "@ABS@//" + fn, "abs-dotdot": "@ABS@/../absdir/" + fn}[form]
             if nargs == 2:
                 name = rnd_word(rnd, NAME_CHARS, 0, 16) if rnd.random() < 0.85 else rnd_word(rnd, NAME_CHARS, 17, 24)
                 name = name.replace("\\", "")
@@ -182,7 +184,7 @@ def gen_cli_case(rnd, i):
             if d[0].endswith("wav") and d[1] is not None:
                 d[2] = rnd.choice(["ЖУК", "игра", "Тест 1", "Ёж", "Привет", "абвгдежз", "абвгдежзи"])     # 3..9 letters = 6..18 bytes in utf-8
     incdir = rnd.choice([None, None, None, "lib", "lib/deep"]) if directives and not any((d[1] or "").startswith("../") or "/../" in (d[1] or "") for d in directives) else None
-    return {"charset": charset, "incdir": incdir, "stale": rnd.random() < 0.3, "kind": "cli", "base": base, "image": img.hex(), "src": stem + suffix, "srcdir": srcdir, "directives": directives,
+    return {"charset": charset, "incdir": incdir, "stale": rnd.random() < 0.3, "dcase": rnd.choice([0, 0, 0xFFFF, rnd.randrange(1 << 16)]), "kind": "cli", "base": base, "image": img.hex(), "src": stem + suffix, "srcdir": srcdir, "directives": directives,
             "opts": opts, "where": rnd.choice(["top", "bottom", "middle"]), "quote": rnd.choice("\"'/"), "second": second}
 
 
@@ -289,11 +291,12 @@ def run_case(case, cnt=None):
         ddir = os.path.join(srcdir, case["incdir"]) if case.get("incdir") else srcdir
         dsrc = "part.mac" if case.get("incdir") else case["src"]
         for d, path, name in case["directives"]:
-            line = d
+            # directive names are case-insensitive like every other name
+            line = d if not case.get("dcase") else "".join(c.upper() if (case["dcase"] >> (i % 16)) & 1 else c for i, c in enumerate(d))
             if path is not None:
                 p = path.replace("@ABS@", absdir)
                 line += f" {q}{p}{q}"
-                target = p if os.path.isabs(p) else os.path.normpath(os.path.join(ddir, p))
+                target = os.path.normpath(p) if os.path.isabs(p) else os.path.normpath(os.path.join(ddir, p))
             else:
                 stem = dsrc[:-4] if dsrc.lower().endswith(".mac") else dsrc
                 target = os.path.join(ddir, stem + {"make_bin": ".bin", "make_bk0010_rom": ".bin", "make_raw": "", "make_wav": ".wav", "make_turbo_wav": ".wav"}[d])
